@@ -154,10 +154,12 @@ def dequeue (s : St) (t : Nat) (q : Option Nat) : St :=
 
 -- create / die / shutdown / call
 def preCreate (s : St) (t : Nat) : Option String :=
-  if s.tids.contains t then some "thread created twice"
+  -- a thread structure may be re-used (same address) once the previous thread has died
+  if s.tids.contains t ∧ (s.th t).st ≠ .done then some "thread created twice"
   else if (s.th t).st = .sleep then some "create of a thread that is sleeping"
   else none
-def effCreate (s : St) (t : Nat) : St := { s with tids := s.tids ++ [t], th := upd s.th t {} }
+def effCreate (s : St) (t : Nat) : St :=
+  { s with tids := if s.tids.contains t then s.tids else s.tids ++ [t], th := upd s.th t {} }
 
 def preDie (s : St) (t : Nat) : Option String :=
   if (s.th t).st ≠ .run then some "die: thread not running" else none
@@ -178,7 +180,7 @@ def sleepDlOk (x : Th) (now : Nat) (dl : Option Nat) : Bool :=
   match x.op with
   | .sleep us =>
     (match us, dl with
-     | some us, some d => if x.shutAtCall then decide (now ≤ d) else decide (x.callAt + us ≤ d)
+     | some us, some d => if x.shutAtCall then decide (now ≤ d) || us == 0 else decide (x.callAt + us ≤ d) || us == 0  -- `Timeout(0)` is the expiration 0
      | none, none => true
      | none, some d => x.shutAtCall && decide (now ≤ d)
      | some _, none => false)
